@@ -105,17 +105,16 @@ Print Assumptions C18_totals_unrestricted_refuted.
    flags, positionals, flags that match nothing; every flag that takes a separate argument has
    one): whenever the specification accepts the run with the event list l, the model's run
    succeeds and what its records name - database events, unrecognised directives of every file
-   read (once), missing includes, in that order - is l without the missing FORCED includes.
-   Missing from the full statement: (1) forced includes that do not exist are never reported
-   (C18_forced_include_refuted, finding forced-include-dropped); (2) command lines with a token
-   that is a proper prefix of a registered flag (C18_flag_abbreviation_refuted, finding
-   flag-abbreviation-accepted) or other non-plain tokens (argparse is C11's subject). *)
+   read (once), missing includes, missing forced includes, in that order - is exactly l.
+   Missing from the full statement: command lines with a token that is a proper prefix of a
+   registered flag (C18_flag_abbreviation_refuted, finding flag-abbreviation-accepted) or other
+   non-plain tokens (argparse is C11's subject). *)
 Theorem C18_events_partial :
   forall c fuel cb pls l,
     fs_structured (fs_of c) -> run_ok c pls = true ->
     find_S c fuel cb pls = Ok l ->
     exists o, find_M c fuel cb pls = Ok o /\
-              l = map sev_of_wrec (all_records o) ++ flat_map (forced_missing (fs_of c)) (units_of c pls).
+              l = map sev_of_wrec (all_records o).
 Proof. exact events_partial. Qed.
 Print Assumptions C18_events_partial.
 
@@ -131,15 +130,8 @@ Theorem C18_silent_when_honoured_partial :
 Proof. exact silent. Qed.
 Print Assumptions C18_silent_when_honoured_partial.
 
-(* the full statement is false of the faithful model: a forced include that does not exist *)
-Theorem C18_forced_include_refuted :
-  exists c pls o, fs_structured (fs_of c) /\ run_ok c pls = true /\
-    find_S c 5 (codebase_of c) pls = Ok [SMissingForced ["B"; "src"; "a.c"] ["cfg.h"]] /\
-    find_M c 5 (codebase_of c) pls = Ok o /\ all_records o = [].
-Proof. exact forced_include_refuted. Qed.
-Print Assumptions C18_forced_include_refuted.
-
-(* ... and 'clang++ -fsycl': the unregistered flag is taken for -fsycl-is-device, no warning *)
+(* the restriction is needed: 'clang++ -fsycl' - the unregistered flag is taken for
+   -fsycl-is-device and no warning names it *)
 Theorem C18_flag_abbreviation_refuted :
   exists c pls o, fs_structured (fs_of c) /\ run_ok c pls = false /\
     find_S c 5 (codebase_of c) pls = Ok [SUnknownArgs ["-fsycl"]] /\
